@@ -62,6 +62,9 @@ func Y(site uint32) {
 		}
 		steps++
 		cov[(site>>6)&(maxSites/64-1)] |= 1 << (site & 63)
+		if recFirst && firstSeen[site&(maxSites-1)] == 0 {
+			firstSeen[site&(maxSites-1)] = steps
+		}
 		if steps > nextMark {
 			// The last spinWindow yields before exhaustion are sampled: the
 			// frames (outermost first) that all of those stacks share
@@ -93,6 +96,36 @@ func BeginSingle(stepBudget uint64) {
 	spinInit = false
 	spinFns = spinFns[:0]
 	mode = modeSingle
+}
+
+var (
+	recFirst  bool
+	firstSeen [maxSites]uint64
+)
+
+// RecordFirst switches recording of the first step index at which each yield
+// site is reached (used to choose pre-emption points uniformly over sites
+// rather than over steps).
+//
+//go:norace
+func RecordFirst(on bool) {
+	recFirst = on
+	if on {
+		firstSeen = [maxSites]uint64{}
+	}
+}
+
+// FirstSeen returns site -> first step index for the sites reached since RecordFirst(true).
+//
+//go:norace
+func FirstSeen() map[uint32]uint64 {
+	m := map[uint32]uint64{}
+	for i, v := range firstSeen {
+		if v != 0 {
+			m[uint32(i)] = v
+		}
+	}
+	return m
 }
 
 const spinWindow = 96
